@@ -133,7 +133,8 @@ def oracle_c01(ulines, lines, meta, every=6):
     return None
 
 
-DOC_EXN = ('exn TypeError', 'exn ValueError', 'exn KeyError', 'exn IndexError', 'exn SlotTakenError')
+DOC_EXN = ('exn TypeError', 'exn ValueError', 'exn KeyError', 'exn IndexError', 'exn SlotTakenError',
+           'exn UnknownSourceError')
 
 
 def oracle_c06(ulines, lines, meta):
